@@ -568,4 +568,37 @@ func (c *Ctx) signingRootHelper(rule string, fn *ssa.Function, dataIdx, domIdx i
 		return
 	}
 	c.R.OK(rule, Fn(fn), c.P.FuncPos(fn), "signing root = HashTreeRoot of {DataRoot: root, Domain: domain}; the hasher feeds DataRoot then Domain")
+	// C06.O5: a malformed root or domain makes the hash fail (and with it the request): each field is fed only below
+	// a test of its length against a constant
+	ruleF := "C06.O5 hash.fail-closed"
+	for _, put := range []struct {
+		field string
+		ins   ssa.Instruction
+	}{{"DataRoot", putData}, {"Domain", putDomain}} {
+		put := put
+		x, path := an.Cut(an.CutQuery{From: an.Entry(hw), Target: func(i ssa.Instruction) bool { return i == put.ins },
+			AcceptEdge: func(b *ssa.BasicBlock, i int, a *an.Atom) bool {
+				if a == nil || a.Op != "==" {
+					return false
+				}
+				for _, side := range [][2]ssa.Value{{a.LV, a.RV}, {a.RV, a.LV}} {
+					call, ok := side[0].(*ssa.Call)
+					if !ok || !isBuiltin(call, "len") {
+						continue
+					}
+					if _, isConst := side[1].(*ssa.Const); !isConst {
+						continue
+					}
+					if _, f, _ := an.FieldOf(call.Call.Args[0]); f == put.field {
+						return true
+					}
+				}
+				return false
+			}})
+		if x != nil {
+			c.R.Fail(ruleF, Fn(hw)+":"+put.field, c.Pos(put.ins), "the "+put.field+" is hashed whatever its length: a malformed value is padded or truncated and signed instead of failing the request", "PutBytes("+put.field+") only below [len("+put.field+") == 32]", an.PathString(c.Pos, path))
+		} else {
+			c.R.OK(ruleF, Fn(hw)+":"+put.field, c.Pos(put.ins), "the "+put.field+" is hashed only below a test of its length; otherwise the hash, and with it the request, fails")
+		}
+	}
 }
